@@ -147,7 +147,10 @@ def run_cmds(mods, scn):
                 k1, v1, k2, v2 = c["args"]
                 kw = {}
                 for k, v in ((k1, v1), (k2, v2)):
-                    kw[k] = uni["PN"][v] if k == "process_noise" else CFG_TOK[k][v] if k in CFG_TOK else python.DEFAULT_MODULES
+                    if k == "config":
+                        kw[k] = python.Config(**{f: CFG_TOK[f][v[f]] for f in CFG_TOK})
+                    else:
+                        kw[k] = uni["PN"][v] if k == "process_noise" else CFG_TOK[k][v] if k in CFG_TOK else python.DEFAULT_MODULES
                 est.set_params(**kw)
             elif c["cmd"] == "set_params":
                 k, v = c["args"]
